@@ -25,7 +25,8 @@ type xformCase struct {
 	Shape   string `json:"shape"`
 	Size    int    `json:"size"`
 	Seed    int64  `json:"seed"`
-	Hint    int    `json:"hint"`    // data type hint as the integer value of internal.DataType, -1 = none
+	Hint    int    `json:"hint"`    // -1 = no data type in the context; k >= 0: the data type that classifier stage classifiers[k] leaves for THIS block
+	// (the event reports the integer value of the type that was found, or -1 when the classifier left none)
 	Entropy string `json:"entropy"` // entropy codec name in the context (selects TEXT variants)
 	Jobs    uint   `json:"jobs"`
 }
@@ -151,7 +152,9 @@ func runXform(c xformCase) tr.Ev {
 	mk := func() (kanzi.ByteTransform, map[string]any, error) {
 		ctx := baseCtx(c.Entropy, c.Jobs, c.Size)
 		if c.Hint >= 0 {
-			if v, ok := dtValues[c.Hint]; ok {
+			// only a data type that a real earlier stage derives from this very block may be in the context: transforms trust it
+			// (UTF skips its validation when the type says UTF-8), so an arbitrary value would break their precondition
+			if v, ok := classify(classifiers[c.Hint%len(classifiers)], orig, c); ok {
 				ctx["dataType"] = v
 			}
 		}
@@ -253,6 +256,32 @@ func runXform(c xformCase) tr.Ev {
 
 var xformSizes = []int{1, 2, 15, 16, 17, 63, 64, 255, 256, 257, 1023, 1024, 1025, 4095, 4096, 16384, 65535, 65536, 65537, 200000, 1 << 20}
 
+// stages that classify a block and leave its data type in the context for the stages behind them
+var classifiers = []string{"TEXT", "UTF", "EXE", "MM", "ROLZ", "PACK"}
+
+// classify runs the forward direction of a classifier stage on a copy of the block (fresh context) and returns the data type it
+// leaves when it declines the block (so that the block goes on, unchanged, to the next stage together with that type)
+func classify(name string, block []byte, c xformCase) (v any, ok bool) {
+	defer func() {
+		if recover() != nil {
+			ok = false
+		}
+	}()
+	ctx := baseCtx(c.Entropy, c.Jobs, c.Size)
+	t, err := newSingle(name, &ctx)
+	if err != nil {
+		return nil, false
+	}
+	src := append([]byte(nil), block...)
+	dst := make([]byte, t.MaxEncodedLen(len(src)))
+	if _, _, ferr := t.Forward(src, dst); ferr == nil {
+		// the classifier transformed the block: the next stage sees its output, not this block (the chain cases cover that)
+		return nil, false
+	}
+	v, ok = ctx["dataType"]
+	return v, ok
+}
+
 func cmdXform(args []string) int {
 	fs := flag.NewFlagSet("xform", flag.ExitOnError)
 	n := fs.Int("n", 500, "number of random cases (in addition to the grid)")
@@ -273,11 +302,7 @@ func cmdXform(args []string) int {
 		fmt.Println(string(b))
 		return 0
 	}
-	harvestDataTypes()
-	var hints []int
-	for k := range dtValues {
-		hints = append(hints, k)
-	}
+	hints := []int{0, 1, 2, 3, 4, 5} // indexes into classifiers
 	rnd := rand.New(rand.NewSource(*seed*7177 + 1))
 	var cases []xformCase
 	id := 0
@@ -348,6 +373,65 @@ func cmdXform(args []string) int {
 	for k := 0; k < ndmg; k++ {
 		add([]string{"TEXT+UTF", "UTF", "TEXT+UTF+LZ"}[k/55%3], "utf8dmg", []int{30000, 65536}[k%2], -1, "NONE")
 		cases[len(cases)-1].Seed = *seed*1009 + int64(k) // kind = seed mod 5, lead = (seed / 5) mod #leads
+	}
+	// boundary sweeps of the length / distance encodings: a literal run, a match, a run of equal bytes of exactly v bytes and two
+	// copies exactly v bytes apart, for every v around the places where such encodings change their width (one byte, 2^8, 2^16 plus
+	// the few hundred values behind them)
+	var sweep []int
+	for v := 0; v <= 320; v++ {
+		sweep = append(sweep, v)
+	}
+	lo, hi := 65536+200, 65536+300
+	if *thorough {
+		for v := 321; v <= 700; v++ {
+			sweep = append(sweep, v)
+		}
+		lo, hi = 65536-60, 65536+420
+	}
+	for v := lo; v <= hi; v++ {
+		sweep = append(sweep, v)
+	}
+	lzFam := []string{"LZ", "LZX"}
+	if *thorough {
+		lzFam = []string{"LZ", "LZX", "LZP", "ROLZ", "ROLZX"}
+	}
+	for vi, v := range sweep {
+		// blocks above 256 KiB make the LZ codecs use their 24-bit window: needed for a match behind a long literal run
+		fill := 30000
+		if v > 40000 {
+			fill = 300000
+		}
+		for ti, t := range lzFam {
+			add(t, fmt.Sprintf("litrun:%d", v), v+8192+fill+16*((vi+ti)%5), -1, "NONE")
+			if v <= 65536+290 {
+				add(t, fmt.Sprintf("match:%d", v), 2*v+fill, -1, "NONE")
+			}
+		}
+		if !*thorough {
+			// the other members of the family on every third value
+			if vi%3 == 0 {
+				add([]string{"LZP", "ROLZ", "ROLZX"}[vi/3%3], fmt.Sprintf("litrun:%d", v), v+8192+fill, -1, "NONE")
+			}
+		}
+		for ti, t := range []string{"RLT", "ZRLT"} {
+			add(t, []string{"runlen", "zrun"}[ti]+fmt.Sprintf(":%d", v), 2*v+20000, -1, "NONE")
+		}
+		if vi%2 == 0 || *thorough {
+			add("LZ", fmt.Sprintf("zrun:%d", v), 2*v+20000, -1, "NONE")
+			add("LZX", fmt.Sprintf("runlen:%d", v), 2*v+20000, -1, "NONE")
+		}
+	}
+	for k := uint(6); k <= 24; k++ {
+		if k > 20 && !*thorough {
+			break
+		}
+		for d := -2; d <= 2; d++ {
+			v := 1<<k + d
+			for _, t := range lzFam {
+				add(t, fmt.Sprintf("dist:%d", v), v+100+20000, -1, "NONE")
+			}
+			add([]string{"LZP", "ROLZ", "ROLZX"}[int(k)%3], fmt.Sprintf("dist:%d", v), v+100+20000, -1, "NONE")
+		}
 	}
 	// random single transforms and chains (sequence level)
 	for i := 0; i < *n; i++ {
